@@ -59,12 +59,73 @@ def node_facts(op, kind):
     return 0, 0, -1, None
 
 
+def term_norm(t):
+    """A term of hugr.model as a value that forgets what the property does not speak about: which Sequence type
+    holds the parts / arguments (list or tuple), the order in which a dataclass declares its fields, and the sugar
+    of a literal list spliced into a list ([a, [b, c]...] is [a, b, c]; the same for tuples)."""
+    import dataclasses
+    import enum
+    import hugr.model as model
+    if isinstance(t, (model.List, model.Tuple)):
+        parts = []
+
+        def add(ps):
+            for q in ps:
+                if isinstance(q, model.Splice) and type(q.seq) is type(t):
+                    add(q.seq.parts)
+                else:
+                    parts.append(term_norm(q))
+        add(t.parts)
+        return (type(t).__name__, tuple(parts))
+    if dataclasses.is_dataclass(t) and not isinstance(t, type):
+        return (type(t).__name__,) + tuple(sorted((f.name, term_norm(getattr(t, f.name)))
+                                                  for f in dataclasses.fields(t)))
+    if isinstance(t, (list, tuple)):
+        return tuple(term_norm(x) for x in t)
+    if isinstance(t, enum.Enum):
+        return ("enum", type(t).__name__, t.name)
+    if t is None or isinstance(t, (str, int, float, bytes)):
+        return (type(t).__name__, repr(t))
+    raise HarnessError("term: unexpected " + type(t).__name__)
+
+
+def term_payload(t):
+    return "term:" + repr(term_norm(t))
+
+
 def term_repr(f):
     """payload of a term the public to_model() methods build; an exception is a payload of its own"""
     try:
-        return "term:" + repr(f())
+        return term_payload(f())
+    except HarnessError:
+        raise
     except Exception as e:
         return "raise:" + type(e).__name__
+
+
+def json_payload(text):
+    """the metadata value a JSON text denotes: the PARSED value, rendered canonically (objects are unordered maps,
+    whitespace / escapes / separators of the text are not part of the value; 1 and 1.0 stay different numbers).
+    Anything that is not a JSON text stays a payload of its own and equals no value."""
+    if not isinstance(text, str):
+        return "notjson:" + type(text).__name__ + ":" + repr(text)
+    try:
+        v = json.loads(text)
+    except ValueError:
+        return "notjson:str:" + text
+    return "json:" + json.dumps(v, sort_keys=True, separators=(",", ":"), ensure_ascii=True)
+
+
+def meta_of_hugr(md):
+    """node metadata as sorted (name, value) payload pairs: a dict, no order promised"""
+    out = []
+    for a, b in md.items():
+        try:
+            text = json.dumps(b)
+        except (TypeError, ValueError) as e:          # not JSON: outside the property's domain, never generated
+            raise HarnessError("metadata value is not JSON: " + type(e).__name__)
+        out.append(("s:" + str(a), json_payload(text)))
+    return sorted(out)
 
 
 def hugr_view(h, I):
@@ -90,7 +151,7 @@ def hugr_view(h, I):
             sig = None
         return {"idx": n.idx, "kind": k, "nin": nin, "nout": nout, "static": static, "name": name,
                 "sig": 0 if sig is None else 1 + I(term_repr(sig)), "val": val,
-                "meta": [[I("s:" + str(a)), I("s:" + json.dumps(b))] for a, b in h[n].metadata.items()]}
+                "meta": [[I(a), I(b)] for a, b in meta_of_hugr(h[n].metadata)]}
 
     def tree(n):
         return {"info": info(n), "ch": [tree(c) for c in h.children(n)]}
@@ -107,10 +168,12 @@ def lit_value(t):
     return t.value
 
 
-def model_tree(m, I, numbering=None):
+def model_tree(m, I, numbering=None, ignored=None):
     """the dataclass tree Hugr.to_model() returned, reduced to what the property speaks about.
-    Fails closed on anything it does not know.  numbering (diagnostic only): interned link name -> the number
-    it spells."""
+    Fails closed on classes it does not know and on malformed entries of the three metadata symbols the property
+    speaks about; metadata terms with any other symbol are not the property's business (counted in `ignored`,
+    diagnostic only).  numbering (diagnostic only): interned link name -> the number it spells."""
+    KNOWN_META = ("core.order_hint.key", "compat.meta_json", "core.order_hint.order")
     import hugr.model as model
     if not isinstance(m, model.Module):
         raise HarnessError("not a Module")
@@ -168,7 +231,7 @@ def model_tree(m, I, numbering=None):
                 if isinstance(v, model.Apply) and v.symbol in defined:
                     o = ["OLoadFunc", sym(v.symbol)]
                 else:
-                    o = ["OLoadConst", 1 + I("term:" + repr(v))]
+                    o = ["OLoadConst", 1 + I(term_payload(v))]
             else:
                 o = ["OCustom"]
         else:
@@ -178,10 +241,16 @@ def model_tree(m, I, numbering=None):
             if isinstance(t, model.Apply) and t.symbol == "core.order_hint.key" and len(t.args) == 1:
                 keys.append(int(lit_value(t.args[0])))
             elif isinstance(t, model.Apply) and t.symbol == "compat.meta_json" and len(t.args) == 2:
-                meta.append([I("s:" + str(lit_value(t.args[0]))), I("s:" + str(lit_value(t.args[1])))])
-            else:
-                raise HarnessError("unknown node metadata: " + repr(t)[:80])
-        return {"op": o, "sig": 0 if n.signature is None else 1 + I("term:" + repr(n.signature)),
+                meta.append(("s:" + str(lit_value(t.args[0])), json_payload(lit_value(t.args[1]))))
+            elif isinstance(t, model.Apply) and t.symbol in KNOWN_META:
+                raise HarnessError("malformed node metadata: " + repr(t)[:80])
+            elif ignored is not None:
+                ignored.append(getattr(t, "symbol", type(t).__name__))
+        # the entries of a node's metadata are a bag: compared sorted, as on the HUGR's side
+        meta = [[I(a), I(b)] for a, b in sorted(meta)]
+        # a node that defines / declares a symbol has no dataflow signature of its own to compare
+        nosig = isinstance(op, (model.DefineFunc, model.DeclareFunc, model.DefineAlias, model.DeclareAlias))
+        return {"op": o, "sig": 0 if n.signature is None or nosig else 1 + I(term_payload(n.signature)),
                 "ins": [name(x) for x in n.inputs], "outs": [name(x) for x in n.outputs],
                 "regs": [region(r) for r in n.regions], "keys": keys, "meta": meta}
 
@@ -194,8 +263,10 @@ def model_tree(m, I, numbering=None):
         for t in r.meta:
             if isinstance(t, model.Apply) and t.symbol == "core.order_hint.order" and len(t.args) == 2:
                 hints.append([int(lit_value(t.args[0])), int(lit_value(t.args[1]))])
-            else:
-                raise HarnessError("unknown region metadata: " + repr(t)[:80])
+            elif isinstance(t, model.Apply) and t.symbol in KNOWN_META:
+                raise HarnessError("malformed region metadata: " + repr(t)[:80])
+            elif ignored is not None:
+                ignored.append(getattr(t, "symbol", type(t).__name__))
         return {"kind": kind, "srcs": [name(x) for x in r.sources], "tgts": [name(x) for x in r.targets],
                 "ch": [node(c) for c in r.children], "hints": hints}
     return region(m.root)
@@ -363,6 +434,20 @@ def named_program(name):
         g.add_state_order(n2, n1)
         g.add_state_order(n3, n2)
         g.set_outputs(n1, n2, n3)
+    elif name == "order_twice":       # the same state-order edge added twice: one hint says it all (hints are a set)
+        g = m.define_main([tys.Bool])
+        (b,) = g.inputs()
+        n1 = g.add_op(Not, b)
+        n2 = g.add_op(Not, b)
+        g.add_state_order(n1, n2)
+        g.add_state_order(n1, n2)
+        g.set_outputs(n1, n2)
+    elif name == "meta_json":         # metadata values whose JSON text has insignificant whitespace / escapes / key order
+        g = m.define_main([tys.Bool])
+        (b,) = g.inputs()
+        n1 = g.add_op(Not, b, metadata={"b": {"z": [1, 2.5, "p q"], "a": {"k": None}}, "a": [], "c": "ü", "d": 0})
+        n2 = g.add_op(Not, n1, metadata={"e": False, "f": "", "g": {}})
+        g.set_outputs(n2)
     elif name == "dfg_root":          # not a module: export of the root as a module region raises
         d = Dfg(tys.Bool)
         d.set_outputs(*d.inputs())
@@ -373,10 +458,11 @@ def named_program(name):
 
 
 NAMED = ["call_twice", "load_twice", "order_hint", "cfg_entry", "cfg_loop", "fn_value", "poly_call", "alias",
-         "unused_outputs", "order_fan", "order_back"]
+         "unused_outputs", "order_fan", "order_back", "order_twice", "meta_json"]
 # programs outside the guard of the theorems (not claimed valid): model and implementation must still agree
 BOUNDARY = ["dfg_root", "cfg_no_entry", "half_order"]
-GUARDS = ("g_valid", "g_order", "g_ports", "g_stars", "g_cfg", "g_hints", "g_total", "g_all", "g_noerr", "g_numexact")
+GUARDS = ("g_valid", "g_order", "g_ports", "g_stars", "g_cfg", "g_hints", "g_total", "g_all", "g_noerr", "g_numexact",
+          "g_outside_agree", "g_strict")
 
 
 # ----------------------------------------------------------------------------- extra state-order edges
@@ -513,9 +599,25 @@ def model_fields():
     import inspect
     import hugr.model as model
     out = []
+    import enum
     for name, cls in vars(model).items():
-        if inspect.isclass(cls) and cls.__module__ == model.__name__ and dataclasses.is_dataclass(cls):
+        if not (inspect.isclass(cls) and cls.__module__ == model.__name__) or name.startswith("_"):
+            continue                                  # private helpers are not model classes
+        if dataclasses.is_dataclass(cls):
             out.append((name, [f.name for f in dataclasses.fields(cls)]))
+        elif issubclass(cls, enum.Enum) or getattr(cls, "_is_protocol", False):
+            continue                                  # RegionKind; the Term / Op protocols
+        else:
+            # a model class need not be a dataclass to expose attributes: annotations, properties, slots
+            attrs = []
+            for k in reversed(cls.__mro__):
+                if k.__module__ != model.__name__:
+                    continue
+                for a in list(getattr(k, "__annotations__", {})) + list(getattr(k, "__slots__", ())) + [
+                        a for a, v in vars(k).items() if isinstance(v, property)]:
+                    if a not in attrs and not a.startswith("_"):
+                        attrs.append(a)
+            out.append((name, attrs))
     if not out:
         raise TranslateError("no dataclasses found in hugr.model")
     return out
@@ -630,14 +732,15 @@ class C12(fw.Prop):
                 m = pk.modules[0] if len(pk.modules) == 1 else None
             else:
                 m = h.to_model()
-            numbering = {}
-            tree = model_tree(m, I, numbering)
+            numbering, ignored = {}, []
+            tree = model_tree(m, I, numbering, ignored)
             err = None
         except HarnessError as e:
-            tree, err, numbering = None, "harness:" + str(e), {}
+            tree, err, numbering, ignored = None, "harness:" + str(e), {}, []
         except Exception as e:
-            tree, err, numbering = None, type(e).__name__, {}
-        return {"view": view, "tree": tree, "raised": err, "prog": p, "numbering": sorted(numbering.items())}
+            tree, err, numbering, ignored = None, type(e).__name__, {}, []
+        return {"view": view, "tree": tree, "raised": err, "prog": p, "numbering": sorted(numbering.items()),
+                "ignored_meta": sorted(set(ignored))}
 
     def literal(self, case, obs, ctx):
         if "error" in obs:
@@ -771,6 +874,12 @@ class C12(fw.Prop):
         out["cases_with_cfg"] = len(with_cfg)
         out["cases_with_sibling_order_edge"] = sum(1 for o in observations if "view" in o and self.stats(o)["sib_order"] > 0)
         ctx.stats["first_use_numbers_exact"] = "%d/%d" % (out["numexact"]["of_claimed_valid"], len(claimed))
+        # model drift, never a verdict: the unprescribed choices of the model (which nodes carry a key, one hint
+        # per order link) and its behaviour outside the guard, compared with the implementation's
+        ctx.stats["model_drift_strict_equal"] = "%d/%d" % (out["strict"]["of_claimed_valid"], len(claimed))
+        ctx.stats["model_drift_outside_guard_agree"] = "%d/%d" % (
+            out["outside_agree"]["all"] - out["all"]["all"], len(cases) - out["all"]["all"])
+        ctx.stats["metadata_symbols_ignored"] = sorted({x for o in observations for x in o.get("ignored_meta", [])})
         ctx.stats["guard_total_met"] = "%d/%d" % (out["total"]["of_claimed_valid"], len(claimed))
         ctx.stats["guard_hints_met"] = "%d/%d" % (out["hints"]["of_claimed_valid"], len(claimed))
         return out
